@@ -17,7 +17,7 @@ CHECKS = {
     engine="derive",
     technique="call-graph format-flow classification of all 28 printf/scanf entry points; va_list load-depth pointer derivation in the formatter; path-sensitive decision of which outcomes of the \"%n\" search reach the libc call; filter-language vs libc-directive-grammar intersection by enumeration",
     category="other",
-    text="For every format string at once: (E) in the library's own formatter no store or writing effect can go through a caller-supplied variadic pointer on any path (exact over the IR), and the 'n' arm only fails; (D) for entry points that delegate to libc, the code inspecting the format is classified by shape and what its guard lets through is decided on all paths (search outcome: not found / at offset 0 / behind '%' / behind another character); the accepted language is intersected with libc's %n-executing language, yielding a concrete accepted format when the filter is unsound. Unclassifiable filters are reported as not decided, never as violations.",
+    text="For every format string at once: (E) in the library's own formatter no store or writing effect can go through a caller-supplied variadic pointer on any path (exact over the IR), and the 'n' arm only fails; (D) for entry points that delegate to libc, the code inspecting the format is classified by shape and what its guard lets through is decided on all paths (search outcome: not found / at offset 0 / behind '%' / behind another character); the accepted language is intersected with libc's %n-executing language, yielding a concrete accepted format when the filter is unsound. A library bounded searcher used as the filter must be bounded by a length measured from the format itself (not by dmax). A filter that cannot be classified makes the check answer analysis-broken (exit 2), never a violation and never a pass.",
     design_ref="DESIGN.md §4 C09",
     note=TB + "; clang's x86-64 SysV va_arg lowering; libc directive grammars as modelled in sa/checks/c09.py; 21 delegating entry points are recorded known findings (unsound literal \"%n\" pre-scan, reproduced)"),
  "C19": dict(
@@ -36,7 +36,7 @@ CHECKS = {
     note=TB + "; only the operands-unmodified clause is claimed; out-of-bounds reads of these functions belong to C02"),
  "C13": dict(
     engine="formula",
-    technique="decision-table extraction: the six loop-free registration/invocation functions are interpreted over abstract handler values {NULL, symbols, default} and compared row by row with the reference model; storage-class and who-writes facts from the IR",
+    technique="decision-table extraction: the six loop-free registration/invocation functions are interpreted over abstract handler values {NULL, symbols standing for every other handler, the default handler} and compared row by row with the reference model; storage-class and who-writes facts from the IR",
     category="proof",
     text="The functions touch handler values only by copies and null tests (enforced: anything else is 'not modelled'), so their behaviour is a finite decision table; all 162 rows equal the model (set returns the previous value of its own variable and stores arg-or-default; invoke calls exactly one handler: thread-local, else process-wide, else default, with unchanged arguments). With per-step equality the property over all histories and interleavings follows by induction; per-thread isolation is the thread_local storage class read from the IR.",
     design_ref="DESIGN.md §3.4, §4 C13",
@@ -101,7 +101,7 @@ CHECKS = {
     engine="pathflags",
     technique="(a) enumeration of all 13 weak orderings of the four byte endpoints of the two operands; per ordering the reachable returns of each interval-testing function are computed by the path engine under the ordering's linear facts and compared with 'intervals intersect'; (b) structural dominance rule for the bumper comparisons in the 26 copy loops of the string family",
     category="other",
-    text="Clause (a) is exhaustive over relative placements for all sizes: an ordering fixes which comparisons of the overlap test are entailed; a test in the wrong unit or with a missing half leaves a branch undecided and a forbidden return reachable (success under intersection, ESOVRLP under disjointness, ESOVRLP for identical pointers where they are accepted). Clause (b): every non-zero store through the destination cursor in a copy loop is dominated, in the same iteration, by the comparison of a moving cursor with the fixed start of the other operand, whose equal edge leaves the loop. Not decided: that the memmove family produces exactly the bytes of a copy through a temporary.",
+    text="Clause (a) is exhaustive over relative placements for all sizes: an ordering fixes which comparisons of the overlap test are entailed; a test in the wrong unit or with a missing half leaves a branch undecided and a forbidden return reachable (success under intersection, ESOVRLP under disjointness, ESOVRLP for identical pointers where they are accepted). Clause (b): every write into dest inside a copy loop's body region (the store through the cursor, and any other store, memset or nested clearing helper in the blocks dominated by the loop's first body block) is strictly dominated, in the same iteration, by the comparison of a moving cursor with the fixed start of the other operand, whose equal edge leaves the loop. Clause (c): under an overlapping placement only copy loops of the safe direction are reachable in the move primitives. Not decided: that the memmove family produces exactly the bytes of a copy through a temporary.",
     design_ref="DESIGN.md §3.4, §4 C07",
     note=TB + "; object sizes unknown to the library and byte sizes that are multiples of the element size are assumed for clause (a); identical-pointer acceptance is taken from the table in sa/checks/c07.py"),
  "C08": dict(
